@@ -382,6 +382,91 @@ class Evaluator(object):
                 return body[0]
             return a
         stmts = [unproduct(a) for a in stmts]
+        # pass 0b: `for v in [E for k in xs if c]: body` -> `for k in xs: if c: v = E; body` (the filter of the loop source becomes a guard of the body)
+        def unfilter(a):
+            if isinstance(a, ast.For) and not a.orelse and isinstance(a.iter, (ast.ListComp, ast.GeneratorExp)) and len(a.iter.generators) == 1 \
+                    and not a.iter.generators[0].is_async and not any(isinstance(n, (ast.Break,)) for b in a.body for n in ast.walk(b)):
+                g = a.iter.generators[0]
+                bound = {n.id for n in ast.walk(g.target) if isinstance(n, ast.Name)}
+                if any(isinstance(n, ast.Name) and n.id in bound for n in ast.walk(a.target)):
+                    return a
+                inner = [ast.Assign(targets=[a.target], value=a.iter.elt)] + list(a.body)
+                if g.ifs:
+                    test = g.ifs[0] if len(g.ifs) == 1 else ast.BoolOp(op=ast.And(), values=list(g.ifs))
+                    inner = [ast.If(test=test, body=inner, orelse=[])]
+                loop = ast.For(target=g.target, iter=g.iter, body=inner, orelse=[])
+                ast.copy_location(loop, a)
+                for n in ast.walk(loop):
+                    if not hasattr(n, 'lineno') and isinstance(n, (ast.stmt, ast.expr)):
+                        ast.copy_location(n, a)
+                ast.fix_missing_locations(loop)
+                return loop
+            return a
+        stmts = [unfilter(a) for a in stmts]
+        # pass 0c: `a, b = [], []` -> `a = []; b = []` (only fresh empty containers: nothing depends on the order)
+        def fresh_empty(n):
+            return (isinstance(n, (ast.List, ast.Tuple, ast.Set)) and not n.elts) or (isinstance(n, ast.Dict) and not n.keys)
+        split = []
+        for a in stmts:
+            if isinstance(a, ast.Assign) and len(a.targets) == 1 and isinstance(a.targets[0], ast.Tuple) and isinstance(a.value, ast.Tuple) \
+                    and len(a.targets[0].elts) == len(a.value.elts) and all(isinstance(t, ast.Name) for t in a.targets[0].elts) and all(fresh_empty(v) for v in a.value.elts):
+                for t, v in zip(a.targets[0].elts, a.value.elts):
+                    split.append(ast.copy_location(ast.Assign(targets=[t], value=v), a))
+            else:
+                split.append(a)
+        stmts = split
+        # pass 0d: partition loops.  `(X if c else Y).append(e)` is `if c: X.append(e) else: Y.append(e)`, and a loop whose body is exactly such a two-way append
+        # on two lists initialised empty just before it is two filtered accumulations (one per list)
+        def negate(test):
+            if isinstance(test, ast.Compare) and len(test.ops) == 1:
+                flip = {ast.In: ast.NotIn, ast.NotIn: ast.In, ast.Eq: ast.NotEq, ast.NotEq: ast.Eq, ast.Is: ast.IsNot, ast.IsNot: ast.Is}.get(type(test.ops[0]))
+                if flip is not None:
+                    return ast.copy_location(ast.Compare(left=test.left, ops=[flip()], comparators=test.comparators), test)
+            if isinstance(test, ast.UnaryOp) and isinstance(test.op, ast.Not):
+                return test.operand
+            return ast.copy_location(ast.UnaryOp(op=ast.Not(), operand=test), test)
+
+        def ifexp_call(st):
+            if isinstance(st, ast.Expr) and isinstance(st.value, ast.Call) and isinstance(st.value.func, ast.Attribute) and isinstance(st.value.func.value, ast.IfExp):
+                c, ie = st.value, st.value.func.value
+                def call_on(recv):
+                    return ast.copy_location(ast.Expr(value=ast.copy_location(ast.Call(func=ast.copy_location(ast.Attribute(value=recv, attr=c.func.attr, ctx=ast.Load()), c),
+                                                                                       args=c.args, keywords=c.keywords), c)), st)
+                return ast.copy_location(ast.If(test=ie.test, body=[call_on(ie.body)], orelse=[call_on(ie.orelse)]), st)
+            return st
+
+        def append_to(st):
+            if isinstance(st, ast.Expr) and isinstance(st.value, ast.Call) and isinstance(st.value.func, ast.Attribute) and st.value.func.attr == 'append' \
+                    and isinstance(st.value.func.value, ast.Name) and len(st.value.args) == 1 and not st.value.keywords:
+                return st.value.func.value.id
+            return None
+        fis = []
+        for a in stmts:
+            if isinstance(a, ast.For) and not a.orelse and len(a.body) == 1:
+                inner = ifexp_call(a.body[0])
+                if isinstance(inner, ast.If) and len(inner.body) == 1 and len(inner.orelse) == 1:
+                    x, y = append_to(inner.body[0]), append_to(inner.orelse[0])
+                    empties = {}
+                    j = len(fis) - 1
+                    while j >= 0 and isinstance(fis[j], ast.Assign) and len(fis[j].targets) == 1 and isinstance(fis[j].targets[0], ast.Name) \
+                            and isinstance(fis[j].value, ast.List) and not fis[j].value.elts:
+                        empties[fis[j].targets[0].id] = j
+                        j -= 1
+                    reads = {n.id for part in [inner.test, a.iter, inner.body[0].value.args[0] if x else a, inner.orelse[0].value.args[0] if y else a]
+                             for n in ast.walk(part) if isinstance(n, ast.Name)}
+                    if x and y and x != y and x in empties and y in empties and not ({x, y} & reads):
+                        ix, iy = fis[empties[x]], fis[empties[y]]
+                        for k in sorted((empties[x], empties[y]), reverse=True):
+                            del fis[k]
+                        lx = ast.copy_location(ast.For(target=a.target, iter=a.iter, body=[ast.copy_location(ast.If(test=inner.test, body=inner.body, orelse=[]), a)], orelse=[]), a)
+                        ly = ast.copy_location(ast.For(target=a.target, iter=a.iter, body=[ast.copy_location(ast.If(test=negate(inner.test), body=inner.orelse, orelse=[]), a)],
+                                                       orelse=[]), a)
+                        for n in (lx, ly):
+                            ast.fix_missing_locations(n)
+                        fis.extend([ix, lx, iy, ly])
+                        continue
+            fis.append(a)
+        stmts = fis
         # pass 1: `for i in range(len(xs)): x = xs[i]; ...` -> `for i, x in enumerate(xs): ...` (so that pass 2 sees one loop form)
         pre = []
         for a in stmts:
@@ -655,6 +740,9 @@ class Evaluator(object):
                     sub = value[1][i]
                 elif value[0] == 'phi' and all(x[0] in ('tuple', 'list') and len(x[1]) == n for x in value[1]):
                     sub = mkphi([x[1][i] for x in value[1]])
+                elif value[0] == 'ifexp' and all(x[0] in ('tuple', 'list') and len(x[1]) == n and not any(y[0] == 'star' for y in x[1]) for x in value[2:4]):
+                    # `a, b = (p, q) if c else (r, s)`: each target is the conditional of the corresponding components
+                    sub = value[2][1][i] if value[2][1][i] == value[3][1][i] else ('ifexp', value[1], value[2][1][i], value[3][1][i])
                 else:
                     sub = ('item', value, i)
                 new = []
@@ -794,15 +882,170 @@ class Evaluator(object):
             if name in st.env:
                 st.env[name] = mkphi([st.env[name], ('carried', lid, k)])
 
+    def _unroll_generator(self, node):
+        """`for T in g(args): body [else: E]` where g is a generator helper the rules do not know (an extracted block): the generator's body with each
+        `yield e` replaced by `T = e; body`, followed by E.  Exact when the loop body neither breaks nor continues (a `return` leaves the enclosing function in
+        both spellings) and the generator has no `return`.  -> list of statements, or None"""
+        resolver = getattr(self.inline, 'generator', None) if self.inline is not None else None
+        it = node.iter
+        if resolver is None or not isinstance(it, ast.Call):
+            return None
+        if isinstance(it.func, ast.Name):
+            f = ('name', it.func.id)
+        elif isinstance(it.func, ast.Attribute) and isinstance(it.func.value, ast.Name) and it.func.value.id == 'self':
+            f = ('attr', ('param', 'self'), it.func.attr)
+        else:
+            return None
+        g = resolver(('call', f, (), ()), self)
+        if g is None or g.qualname in self._frames or g.vararg or g.kwarg or any(isinstance(a, ast.Starred) for a in it.args) or any(k.arg is None for k in it.keywords):
+            return None
+
+        def own_level(stmts, kinds):
+            for s in stmts:
+                if isinstance(s, kinds):
+                    return True
+                if isinstance(s, (ast.For, ast.While, ast.FunctionDef, ast.ClassDef, ast.Lambda)):
+                    continue
+                for field in ('body', 'orelse', 'finalbody', 'handlers'):
+                    sub = getattr(s, field, None)
+                    if isinstance(sub, list) and own_level([x for x in sub if isinstance(x, ast.stmt)] +
+                                                           [y for x in sub if isinstance(x, ast.ExceptHandler) for y in x.body], kinds):
+                        return True
+            return False
+        if own_level(node.body, (ast.Break, ast.Continue)):
+            return None
+        gbody = [b for b in g.node.body if not (isinstance(b, ast.Expr) and isinstance(b.value, ast.Constant))]
+        if any(isinstance(n, (ast.Return, ast.FunctionDef, ast.Lambda, ast.ClassDef, ast.Global, ast.Nonlocal, ast.Await)) for b in gbody for n in ast.walk(b)):
+            return None
+        params = list(g.params)
+        is_method = g.cls is not None and not any(ast.unparse(d) == 'staticmethod' for d in (getattr(g, 'decorators', None) or []))
+        args = list(it.args)
+        if is_method:
+            if f[0] != 'attr':
+                return None
+            args = [ast.Name(id='self', ctx=ast.Load())] + args
+        kws = {k.arg: k.value for k in it.keywords}
+        defaults = {}
+        a = g.node.args
+        pos = a.posonlyargs + a.args
+        for p_, d in zip(pos[len(pos) - len(a.defaults):], a.defaults):
+            defaults[p_.arg] = d
+        for p_, d in zip(a.kwonlyargs, a.kw_defaults):
+            if d is not None:
+                defaults[p_.arg] = d
+        if len(args) > len(params):
+            return None
+        locals_ = set(params) | set(getattr(g, 'kwonly', ()) or ())
+        for b in gbody:
+            for n in ast.walk(b):
+                if isinstance(n, ast.Name) and isinstance(n.ctx, (ast.Store, ast.Del)):
+                    locals_.add(n.id)
+        prefix = '__g%d_' % len(self._frames)
+        class Ren(ast.NodeTransformer):
+            def visit_Name(self_, n):
+                if n.id in locals_:
+                    return ast.copy_location(ast.Name(id=prefix + n.id, ctx=n.ctx), n)
+                return n
+        out = []
+        allp = params + list(getattr(g, 'kwonly', ()) or ())
+        for i, p_ in enumerate(allp):
+            if i < len(args) and i < len(params):
+                v = args[i]
+            elif p_ in kws:
+                v = kws.pop(p_)
+            elif p_ in defaults:
+                v = defaults[p_]
+            else:
+                return None
+            out.append(ast.Assign(targets=[ast.Name(id=prefix + p_, ctx=ast.Store())], value=v))
+        if kws:
+            return None
+        ok = [True]
+        loop = node
+
+        def rewrite(stmts):
+            res = []
+            for s in stmts:
+                if isinstance(s, ast.Expr) and isinstance(s.value, ast.Yield):
+                    val = Ren().visit(copy.deepcopy(s.value.value)) if s.value.value is not None else ast.Constant(value=None)
+                    res.append(ast.Assign(targets=[copy.deepcopy(loop.target)], value=val))
+                    res.extend(copy.deepcopy(loop.body))
+                    continue
+                if isinstance(s, ast.Expr) and isinstance(s.value, ast.YieldFrom):
+                    res.append(ast.For(target=copy.deepcopy(loop.target), iter=Ren().visit(copy.deepcopy(s.value.value)), body=copy.deepcopy(loop.body), orelse=[]))
+                    continue
+                if isinstance(s, (ast.If, ast.For, ast.While, ast.With, ast.Try)):
+                    s2 = copy.copy(s)
+                    for field in ('test', 'iter', 'target', 'items'):
+                        if hasattr(s, field):
+                            v = getattr(s, field)
+                            if isinstance(v, list):
+                                setattr(s2, field, [Ren().visit(copy.deepcopy(x)) for x in v])
+                            else:
+                                setattr(s2, field, Ren().visit(copy.deepcopy(v)))
+                    for field in ('body', 'orelse', 'finalbody'):
+                        if hasattr(s, field):
+                            setattr(s2, field, rewrite(getattr(s, field)))
+                    if isinstance(s, ast.Try):
+                        hs = []
+                        for h in s.handlers:
+                            h2 = copy.copy(h)
+                            h2.body = rewrite(h.body)
+                            hs.append(h2)
+                        s2.handlers = hs
+                    res.append(s2)
+                    continue
+                if any(isinstance(n, (ast.Yield, ast.YieldFrom)) for n in ast.walk(s)):
+                    ok[0] = False
+                res.append(Ren().visit(copy.deepcopy(s)))
+            return res
+        out.extend(rewrite(gbody))
+        if not ok[0]:
+            return None
+        out.extend(copy.deepcopy(node.orelse))
+        for n in out:
+            for m in ast.walk(n):
+                if isinstance(m, (ast.stmt, ast.expr)) and not hasattr(m, 'lineno'):
+                    ast.copy_location(m, node)
+            ast.fix_missing_locations(n)
+        return out
+
+    @staticmethod
+    def _literal_items(t):
+        """items of a sequence whose content is known: a list / tuple display, possibly grown by append / insert(<constant>) / extend(<display>) / `+`"""
+        if t[0] in ('tuple', 'list'):
+            return None if any(x[0] == 'star' for x in t[1]) else list(t[1])
+        if t[0] == 'mut' and t[2] in ('append', 'insert', 'extend'):
+            base = Evaluator._literal_items(t[1])
+            if base is None or t[1][0] == 'tuple':
+                return None
+            if t[2] == 'append' and len(t[3]) == 1:
+                return base + [t[3][0]]
+            if t[2] == 'insert' and len(t[3]) == 2 and t[3][0][0] == 'const' and isinstance(t[3][0][1], int) and not isinstance(t[3][0][1], bool):
+                base.insert(t[3][0][1], t[3][1])
+                return base
+            if t[2] == 'extend' and len(t[3]) == 1:
+                more = Evaluator._literal_items(t[3][0])
+                return None if more is None else base + more
+            return None
+        if t[0] == 'binop' and t[1] == '+':
+            a, b = Evaluator._literal_items(t[2]), Evaluator._literal_items(t[3])
+            return None if a is None or b is None else a + b
+        return None
+
     def st_For(self, node, st):
+        unrolled = self._unroll_generator(node)
+        if unrolled is not None:
+            return self.exec_block(unrolled, st)
         outs = []
         for it, s0 in self.ev(node.iter, st):
             base = len(s0.events)
-            if it[0] in ('tuple', 'list') and 0 < len(it[1]) <= 8 and not any(x[0] == 'star' for x in it[1]):
+            lit = self._literal_items(it)
+            if lit is not None and 0 < len(lit) <= 8:
                 # a loop over a literal sequence (a pair of bounds, a dispatch table of lambdas): one pass per item, in order
                 states = [s0]
                 broken = []
-                for item in it[1]:
+                for item in lit:
                     new = []
                     for s in states:
                         for s1 in self.assign_target(node.target, item, s, node):
@@ -1088,7 +1331,16 @@ class Evaluator(object):
 
     def ex_BinOp(self, node, st):
         op = _BINOP[type(node.op)]
-        return [(('binop', op, l, r), s) for (l, r), s in self.ev_seq([node.left, node.right], st)]
+        return [(self._mkbinop(op, l, r), s) for (l, r), s in self.ev_seq([node.left, node.right], st)]
+
+    @staticmethod
+    def _mkbinop(op, l, r):
+        # `xs[:w] + [e] + xs[w:]` is xs with e inserted at w (list.insert semantics, also for w < 0 or beyond the end): same term as `xs.insert(w, e)`
+        if op == '+' and l[0] == 'binop' and l[1] == '+' and l[3][0] == 'list' and len(l[3][1]) == 1 and l[2][0] == 'sub' and r[0] == 'sub' and l[2][1] == r[1] \
+                and l[2][2][0] == 'slice' and r[2][0] == 'slice' and l[2][2][1] == T.CONST_NONE and l[2][2][3] == T.CONST_NONE and r[2][2] == T.CONST_NONE \
+                and r[2][3] == T.CONST_NONE and l[2][2][2] == r[2][1] and l[3][1][0][0] != 'star':
+            return ('mut', r[1], 'insert', (r[2][1], l[3][1][0]))
+        return ('binop', op, l, r)
 
     def ex_UnaryOp(self, node, st):
         op = _UNOP[type(node.op)]
